@@ -12,7 +12,7 @@ import z3
 from pyvc.run import harness, canary
 from pyvc import heap
 from pyvc.core import (EQ, NE, LE, LT, GE, GT, AND, OR, NOT, IMPLIES, IFF, ITE, ABS, ROUND2, ISINT, SymNum, SymTime,
-                       SymKey, SymBool, lift, liftk, tobool, ctx, R, K, B)
+                       SymKey, SymBool, Unmodelled, lift, liftk, tobool, ctx, R, K, B)
 from pyvc.heap import AKB, AKR, Region, add_universal, add_keyterm
 from .common import HAS, VAL, lemma
 
@@ -187,7 +187,10 @@ class Positions:
         return Snap('conc', None, {k: {f: getattr(p, f) for f in POSF} for k, p in self.d.items()})
 
     def handler(self):
-        ph = object.__new__(PositionHandler)
+        # built by the real constructor, then given an arbitrary book: state the class invariant does not know of (an
+        # attribute added to __init__) is not arbitrary here, so whatever depends on it is undecided rather than proved
+        ph = PositionHandler()
+        _known_state(ph, {'positions'}, 'PositionHandler')
         ph.positions = self.d
         return ph
 
@@ -236,19 +239,26 @@ class Snap:
                 KeyFn('conc', {k: v['current_dt'] for k, v in self.f.items()}))
 
 
+def _known_state(obj, known, what):
+    extra = sorted(set(vars(obj)) - set(known))
+    if extra and ctx() is not None and ctx().mode == 'sym':
+        raise Unmodelled('%s carries state outside its class invariant: %s' % (what, ', '.join(extra)))
+
+
+PF_STATE = {'start_dt', 'current_dt', 'starting_cash', 'currency', 'portfolio_id', 'name', 'pos_handler', 'history', 'logger', 'cash'}
+
+
 def make_portfolio(c, name='pf'):
-    """an arbitrary Portfolio satisfying PfInv: real object, symbolic content"""
+    """an arbitrary Portfolio satisfying PfInv: the real object from the real constructor, then arbitrary content"""
     P = Positions(c, name + '.pos')
-    pf = object.__new__(Portfolio)
+    clock = c.time(name + '.clock')
+    with heap._quiet():
+        pf = Portfolio(clock, starting_cash=0.0, currency='USD', portfolio_id='pid', name='n')
+    _known_state(pf, PF_STATE, 'Portfolio')
     pf.cash = c.real(name + '.cash', lambda r: round(r.uniform(-5000, 200000), 2))
-    pf.current_dt = c.time(name + '.clock')
+    pf.current_dt = clock
     pf.pos_handler = P.handler()
     pf.history = []
-    pf.portfolio_id = 'pid'
-    pf.currency = 'USD'
-    pf.name = 'n'
-    from pyvc import shims
-    pf.logger = shims.logging.getLogger('x')
     return pf, P
 
 
